@@ -455,6 +455,27 @@ def _pca(case, ctx):
                 elif not r2.ok:
                     ctx.violation('raised', desc, 'get_features on two stored spikes raised %r' % r2.exc, dict(f, exc=r2.exc_name), tb=r2.tb)
                     return
+            # a request made only of stored spikes, in no particular order: every spike gets the row that the same set gets
+            # when it is asked for in increasing order
+            if len(have) >= 4:
+                asc = np.array(sorted(have[:12]))
+                shuf = asc[rng.permutation(len(asc))]
+                ra, rs_ = call(m.get_features, asc, ch), call(m.get_features, shuf, ch)
+                ctx.mon('pca.unordered_requests')
+                if ra.ok and rs_.ok and np.asarray(ra.value).shape == np.asarray(rs_.value).shape == (len(asc), len(ch), 3):
+                    oa, os_ = np.asarray(ra.value, dtype=np.float64), np.asarray(rs_.value, dtype=np.float64)
+                    back = np.array([int(np.nonzero(shuf == s_)[0][0]) for s_ in asc.tolist()])
+                    for j in range(len(ch)):
+                        for comp in range(3):
+                            a_, b_ = oa[:, j, comp], os_[back, j, comp]
+                            tol_ = 1e-5 * max(1.0, np.abs(a_).max())
+                            if not (np.allclose(a_, b_, atol=tol_, rtol=1e-5) or np.allclose(a_, -b_, atol=tol_, rtol=1e-5)):
+                                ctx.violation('pca_mismatch', dict(desc, request=shuf.tolist()), 'stored spikes requested as %r: channel %d component %d gives %r, the same '
+                                              'spikes in increasing order give %r' % (shuf.tolist(), ch[j], comp, b_[:5].tolist(), a_[:5].tolist()), dict(f, unordered=True))
+                                return
+                elif not (ra.ok and rs_.ok):
+                    ctx.violation('raised', desc, 'get_features on stored spikes in another order raised %r' % (ra.exc or rs_.exc), dict(f, unordered=True), tb=ra.tb or rs_.tb)
+                    return
             # spikes not in the store must come back as zeros
             for i, s in enumerate(ids.tolist()):
                 if s not in pos and np.any(out[i] != 0):
